@@ -1250,6 +1250,9 @@ class Stack(list):
             return False
         if sequence == 0xffffffff:
             return False
+        if len(self[-1]) > 5:
+            # The operand is read as a number of 5 bytes at most
+            return False
         locktime = decode_num(self[-1])
         if locktime < 0:
             return False
@@ -1283,6 +1286,9 @@ class Stack(list):
         #     if version < 2:
         #         return False
         # return True
+        if len(self[-1]) > 5:
+            # The operand is read as a number of 5 bytes at most
+            return False
         locktime = decode_num(self[-1])
         if locktime < 0:
             return False
